@@ -63,10 +63,36 @@ fn long_session(seed: u64, thorough: bool) -> Vec<Plan> {
     vec![plan]
 }
 
+/// "for all depth limits N >= 1": very large N is only affordable where the tree is tiny.
+const DEEP_LIMIT_CASES: u64 = 6;
+
+fn deep_limit(seed: u64, k: u64) -> Vec<Plan> {
+    use super::super::kernel::{Action, Policy};
+    let fen = ["8/8/4k3/8/8/4K3/8/8 w - - 0 1", "8/8/8/3k4/8/8/3K4/8 b - - 0 1", "k7/8/8/8/8/8/8/7K w - - 0 1"][(k % 3) as usize];
+    let depth = [129u64, 200, 255, 96, 160, 254][(k % 6) as usize];
+    let mut plan = Plan::new("C14", seed);
+    plan.script = vec![
+        Action::send(format!("position fen {fen}")),
+        Action::send(format!("go depth {depth}")),
+        Action::WaitBestmove,
+        Action::WaitIdle,
+        Action::send("quit"),
+    ];
+    plan.cost_ns = 1000;
+    plan.policy = Some(Policy::Quiet);
+    plan.step_cap = 60_000_000;
+    plan.tick_cap = 200_000_000;
+    plan.params = super::super::json::J::obj().set("deep_limit", depth);
+    vec![plan]
+}
+
 pub fn generate(cx: &super::GenCtx) -> Vec<Plan> {
     let seed = cx.seed;
     if cx.index < long_sessions(cx.thorough) {
         return long_session(seed, cx.thorough);
+    }
+    if cx.index < long_sessions(cx.thorough) + DEEP_LIMIT_CASES {
+        return deep_limit(seed, cx.index - long_sessions(cx.thorough));
     }
     let mut rng = Rng::new(seed);
     let mut plan = Plan::new("C14", seed);
@@ -197,6 +223,9 @@ pub fn check(plans: &[Plan], recs: &[RunRec]) -> Outcome {
     super::check_input_panic(rec, &mut out);
     let h = history(rec);
     let views = go_views(&h);
+    if plan.params.get("deep_limit").is_some() {
+        out.stats.inc("reach.depth_limit_over_95");
+    }
     if plan.params.b("long_session") {
         out.stats.inc("reach.long_session");
         out.stats.max("cache_entries_at_end_of_long_session", super::super::kernel::tt_len() as u64);
